@@ -61,4 +61,20 @@ theorem C19_row_is_source (r : Row) (metric : String) (scanFails parseFails : Bo
   unfold getG myRowGuard
   cases ht : r.time <;> cases scanFails <;> cases parseFails <;> simp_all
 
+/-- **C19_rows_loop_is_source**: for every result set (any number of rows, any of them failing to scan or to parse), the rows the
+    model reads back are the concatenation, in order, of what the generated row guard lets each iteration append -/
+theorem C19_rows_loop_is_source (rows : List Row) (metric : String) (sf pf : Row → Bool)
+    (h : ∀ r ∈ rows, r.time.isSome = (!sf r && !pf r)) :
+    readRows rows =
+      rows.flatMap (fun r => if getG metric .absent .absent false (sf r) (pf r) myRowGuard
+        then [(r.time.getD "", r.name, r.value)] else []) := by
+  induction rows with
+  | nil => simp [readRows]
+  | cons r rest ih =>
+    have hr := C19_row_is_source r metric (sf r) (pf r) (h r (by simp))
+    have ih' := ih (fun x hx => h x (by simp [hx]))
+    unfold readRows at ih' ⊢
+    rw [List.flatMap_cons, ← hr, ← ih', List.filterMap_cons]
+    cases r.time <;> simp
+
 end Katib.Gen
